@@ -13,7 +13,7 @@ def main():
   os.makedirs(os.path.join(core.COQ, 'gen'), exist_ok=True)
   rc = 0
   targets = ['theories/Lib/Cases.vo']
-  for path in sorted(glob.glob(os.path.join(core.VERIF, 'harness', 'props', 'c*.py'))):
+  for path in sorted(glob.glob(os.path.join(core.VERIF, 'harness', 'props', 'c[0-9][0-9].py'))):
     name = os.path.basename(path)[:-3]
     try:
       mod = importlib.import_module('harness.props.' + name)
